@@ -14,7 +14,9 @@ KF1 clause (known finding C04-hardline-in-flat-group): FLAT is also tolerated if
 element reached in FLAT mode is a `hard` (not an `ab`) and the group holds no `ab` in a position from
 which normalisation hoists it (through cat / nest / grp, or as a direct fill item).  Normalisation does not
 descend into fill items, so for a fill item nothing inside it is hoisted: the item is tolerated FLAT whenever
-the first forced element reached is a `hard` (an item that is itself an `ab` is laid out broken).
+the first forced element reached is a `hard` (an item that is itself an `ab` is laid out broken).  A fill
+separator is decided by reading the content item before it and the separator together, so a separator is also
+tolerated FLAT when that content item reaches a `hard` first.
 """
 BREAK, FLAT = 0, 1
 
@@ -180,11 +182,28 @@ class Matcher:
                 out |= self.ends(t[1], FLAT, indent, pos, col)
             return frozenset(out)
         if k == 'fill':
-            def modes(it):
+            items = t[1]
+            states = {(pos, col)}
+            for i, it in enumerate(items):
                 if it[0] == 'ab':
-                    return (BREAK,)
-                return (FLAT, BREAK) if self.may_flat(it, fill_item=True) else (BREAK,)
-            return self._seq(t[1], modes, indent, pos, col)
+                    mds = (BREAK,)
+                elif self.may_flat(it, fill_item=True):
+                    mds = (FLAT, BREAK)
+                elif (self.clause == KF1 and i % 2 == 1 and items[i - 1][0] != 'ab'
+                      and first_forced(items[i - 1], self.ff) == 'hard'):
+                    # the engine decides a separator by reading the content before it and the separator together:
+                    # a hardline in that content is the first forced element reached (same cause as KF1)
+                    mds = (FLAT, BREAK)
+                else:
+                    mds = (BREAK,)
+                nxt = set()
+                for md in mds:
+                    for (p, c) in states:
+                        nxt |= self.ends(it, md, indent, p, c)
+                states = nxt
+                if not states:
+                    break
+            return frozenset(states)
         raise ValueError(t)
 
     def member(self, t):
